@@ -138,3 +138,9 @@ def op_check(op, ir, fs, profile):
         if not is_nan and not neg and out.startswith(b"-"):
             return "positive value written with '-'"
     return None
+
+
+def classify(v):
+    """call-site classes of known findings (findlib.py)"""
+    import findlib
+    return findlib.syntax_class(v["op"], v["implementation"])
